@@ -88,3 +88,57 @@ Proof.
     lra.
   - intros _. exact Hqh.
 Qed.
+
+(* ---- SparselyBin: bin k = floor((x - origin) / width) covers [origin + k*width, origin + (k+1)*width) ---- *)
+Definition ssoft (bw o q : Qc) : Qc := (q - o) / bw.
+
+Theorem sparse_partition (bw o q : Qc) (k : Z) :
+  0 < bw -> k = Qfloor (ssoft bw o q) ->
+  o + zq k * bw <= q /\ q < o + zq (k + 1) * bw.
+Proof.
+  intros Hb Hk.
+  set (y := ssoft bw o q) in *.
+  assert (F1 : (inject_Z k <= this y)%Q) by (rewrite Hk; apply Qfloor_le).
+  assert (F2 : (this y < inject_Z (k + 1))%Q) by (rewrite Hk; apply Qlt_floor).
+  assert (Hb' : (0 < this bw)%Q) by (clear -Hb; qc2q; simpl in *; lra).
+  assert (Y : (this y == (this q - this o) / this bw)%Q).
+  { unfold y, ssoft. unfold Qcdiv, Qcmult, Qcminus, Qcplus, Qcopp, Qcinv. cbn [this Q2Qc].
+    rewrite !Qred_correct. reflexivity. }
+  assert (Hq : (this q - this o == this y * this bw)%Q).
+  { rewrite Y. field. lra. }
+  assert (St : forall z : Z, (this (o + zq z * bw) == this o + inject_Z z * this bw)%Q).
+  { intro z. unfold Qcmult, Qcplus. cbn [this Q2Qc]. rewrite !Qred_correct. rewrite this_zq. reflexivity. }
+  split.
+  - unfold Qcle. rewrite St.
+    assert ((inject_Z k * this bw <= this q - this o)%Q).
+    { rewrite Hq. apply Qmult_le_compat_r; [exact F1 | apply Qlt_le_weak; exact Hb']. }
+    lra.
+  - unfold Qclt. rewrite St.
+    assert ((this q - this o < inject_Z (k + 1) * this bw)%Q).
+    { rewrite Hq. apply Qmult_lt_compat_r; [exact Hb' | exact F2]. }
+    lra.
+Qed.
+
+(* the index the views and fill use is that floor, when it does not saturate *)
+Lemma sbin_index_exact (bw o q : Qc) :
+  0 < bw ->
+  zq (- zmax63) < ssoft bw o q -> ssoft bw o q < zq zmax63 ->
+  sbin_index (N:=Xq) (XF bw) (XF o) (XF q) = Qfloor (ssoft bw o q).
+Proof.
+  intros Hb Hlo Hhi. set (y := ssoft bw o q) in *. unfold sbin_index.
+  assert (Hs : qsgn bw = Gt) by (apply qsgn_pos; exact Hb).
+  cbn [nsub ndiv nleb nofZ nfloor Xq xsub xneg xadd xdiv xofZ xfloor]. rewrite Hs.
+  change (Q2Qc (inject_Z (- zmax63))) with (zq (- zmax63)).
+  change (Q2Qc (inject_Z zmax63)) with (zq zmax63).
+  change ((q + - o) / bw) with y.
+  assert (E1 : xleb (XF y) (XF (zq (- zmax63))) = false).
+  { unfold xleb, xltb, xeqb. qc_cmp_cases y (zq (- zmax63)); try reflexivity.
+    - exfalso. rewrite Hc in Hlo. apply (Qclt_not_le _ _ Hlo). apply Qcle_refl.
+    - exfalso. apply (Qclt_not_le _ _ Hlo). apply Qclt_le_weak. exact Hc. }
+  assert (E2 : xleb (XF (zq zmax63)) (XF y) = false).
+  { unfold xleb, xltb, xeqb. qc_cmp_cases (zq zmax63) y; try reflexivity.
+    - exfalso. rewrite <- Hc in Hhi. apply (Qclt_not_le _ _ Hhi). apply Qcle_refl.
+    - exfalso. apply (Qclt_not_le _ _ Hhi). apply Qclt_le_weak. exact Hc. }
+  change (xofZ (- zmax63)) with (XF (zq (- zmax63))). change (xofZ zmax63) with (XF (zq zmax63)).
+  rewrite E1, E2. reflexivity.
+Qed.
